@@ -569,9 +569,9 @@ class TagAttrDict(Dict[str, "str | HTML"]):
                     # HTML() and is written verbatim, so the plain side must be escaped
                     # here with the attribute rules (quotes and newlines included).
                     if isinstance(val, HTML) and not isinstance(prev, HTML):
-                        prev = HTML(html_escape(prev, attr=True))
+                        prev = HTML(html_escape(_plain_text(prev), attr=True))
                     elif isinstance(prev, HTML) and not isinstance(val, HTML):
-                        val = HTML(html_escape(val, attr=True))
+                        val = HTML(html_escape(_plain_text(val), attr=True))
                     val = prev + " " + val
 
                 attrz[nm] = val
@@ -1425,14 +1425,14 @@ class HTML(UserString):
         # Non-HTML text added to HTML should be escaped before being added
         # Convert each element to strings, then concatenate them, and return HTML
         # Case: `HTML() + str`
-        return HTML(self.as_string() + html_escape(str(other)))
+        return HTML(self.as_string() + html_escape(_plain_text(other)))
 
     # Right side addition for when types are: `str + HTML()` or `unknown + HTML()`
     def __radd__(self, other: object) -> HTML:
         # Non-HTML text added to HTML should be escaped before being added
         # Convert each element to strings, then concatenate them, and return HTML
         # Case: `str + HTML()`
-        return HTML(html_escape(str(other)) + self.as_string())
+        return HTML(html_escape(_plain_text(other)) + self.as_string())
 
     def __repr__(self) -> str:
         return self.as_string()
@@ -2006,6 +2006,15 @@ def _tag_show(
         return file
 
     raise Exception(f"Unknown renderer {renderer}")
+
+
+def _plain_text(x: object) -> str:
+    # A str contributes its characters, also when its type is a subclass of str that
+    # overrides __str__()/__format__() (e.g. a `(str, Enum)` member); anything else
+    # contributes str(x).
+    if isinstance(x, str):
+        return str.__str__(x)
+    return str(x)
 
 
 def _normalize_text(txt: str | HTML) -> str:
